@@ -196,6 +196,9 @@ class _D(ast.NodeTransformer):
         it = node.iter
         if isinstance(it, ast.Name) and it.id in getattr(self, "gens", {}):
             it = self.gens[it.id]   # a generator expression held in a local that is bound once and iterated once
+            if isinstance(it, ast.Call):
+                # ... or a counter / range made once and consumed here: the loop runs over it directly
+                node = _loc(ast.For(target=node.target, iter=it, body=node.body, orelse=node.orelse, type_comment=None), node)
         if isinstance(it, ast.GeneratorExp) and 1 <= len(it.generators) <= 3 and not node.orelse and not any(g.is_async for g in it.generators) \
                 and isinstance(node.target, (ast.Name, ast.Tuple)) and (len(it.generators) == 1 or not _own_jump(node.body)):
             tnames = {x.id for g in it.generators for x in ast.walk(g.target) if isinstance(x, ast.Name)}
@@ -221,6 +224,12 @@ class _D(ast.NodeTransformer):
                 it = ast.Tuple(elts=[ast.Tuple(elts=[k, v], ctx=ast.Load()) for k, v in zip(d.keys, d.values)], ctx=ast.Load())
         if isinstance(it, ast.Dict) and all(k is not None for k in it.keys):
             it = ast.Tuple(elts=list(it.keys), ctx=ast.Load())
+        # zip(<literal>, <literal>, ...) of equally long literals: the tuple of their rows
+        if isinstance(it, ast.Call) and isinstance(it.func, ast.Name) and it.func.id == "zip" and len(it.args) >= 2 and not it.keywords:
+            cols = [self.lits.get(a.id, a) if isinstance(a, ast.Name) else a for a in it.args]
+            if all(isinstance(c, (ast.Tuple, ast.List)) and not any(isinstance(e, ast.Starred) for e in c.elts) for c in cols) \
+                    and len({len(c.elts) for c in cols}) == 1:
+                it = ast.Tuple(elts=[ast.Tuple(elts=[c.elts[i] for c in cols], ctx=ast.Load()) for i in range(len(cols[0].elts))], ctx=ast.Load())
         if isinstance(it, (ast.Tuple, ast.List)) and 0 < len(it.elts) <= 64 and not node.orelse and _pure_lit(it):
             tgt = node.target
             names = [tgt.id] if isinstance(tgt, ast.Name) else [e.id for e in tgt.elts] if isinstance(tgt, ast.Tuple) and all(
@@ -281,7 +290,7 @@ def _pure_lit(e):
     if isinstance(e, ast.JoinedStr):
         return all(isinstance(v, ast.Constant) or (isinstance(v, ast.FormattedValue) and _pure_lit(v.value) and (
             v.format_spec is None or _pure_lit(v.format_spec))) for v in e.values)
-    if isinstance(e, ast.BinOp) and isinstance(e.op, (ast.Mod, ast.Add)):
+    if isinstance(e, ast.BinOp) and isinstance(e.op, (ast.Mod, ast.Add, ast.Sub, ast.Mult)):
         return _pure_lit(e.left) and _pure_lit(e.right)
     return False
 
@@ -510,7 +519,9 @@ def desugar(fnode):
             s_, l_ = cnt.get(n.id, (0, 0))
             cnt[n.id] = (s_ + 1, l_) if isinstance(n.ctx, (ast.Store, ast.Del)) else (s_, l_ + 1)
     d.gens = {n.targets[0].id: n.value for n in ast.walk(f) if isinstance(n, ast.Assign) and len(n.targets) == 1 and isinstance(n.targets[0], ast.Name)
-              and isinstance(n.value, ast.GeneratorExp) and cnt.get(n.targets[0].id, (0, 0))[0] == 1
+              and (isinstance(n.value, ast.GeneratorExp) or (isinstance(n.value, ast.Call) and ast.unparse(n.value.func) in (
+                  "itertools.count", "count", "range") and _pure_lit(ast.Tuple(elts=list(n.value.args), ctx=ast.Load()))))
+              and cnt.get(n.targets[0].id, (0, 0))[0] == 1
               and (cnt.get(n.targets[0].id) == (1, 1) or (cnt[n.targets[0].id][1] > 1 and _max_loads(f.body, n.targets[0].id) == 1))}
     f = d.visit(f)
     # values picked by a branch (now written as if-statements) and used once by the next statement: written at that use, then the
